@@ -63,6 +63,265 @@ func TestVerifC24(t *testing.T) {
 	_ = pickRate
 '''
 
+# ---- inline sites (a * b / c outside the named helpers): a recipe per enclosing function drives the real code ----
+# Each recipe: imports, body (inside TestVerifC24; %(coq)s = generated site name, %(where)s = file:line), toplevel decls.
+
+RECIPE_PLAYBACK_READHEADER = dict(
+    imports=['"bytes"', '"encoding/binary"', '"github.com/bluenviron/mediacommon/v2/pkg/formats/fmp4"',
+             '"github.com/bluenviron/mediacommon/v2/pkg/formats/fmp4/seekablebuffer"',
+             'mcodecs "github.com/bluenviron/mediacommon/v2/pkg/formats/mp4/codecs"',
+             '"github.com/bluenviron/mediamtx/internal/test"'],
+    body='''
+	{ // %(where)s through segmentFMP4ReadHeader: a real init segment whose mvhd (v0) timescale / duration are patched
+		var vbuf seekablebuffer.Buffer
+		vinit := fmp4.Init{Tracks: []*fmp4.InitTrack{{ID: 1, TimeScale: 90000,
+			Codec: &mcodecs.H264{SPS: test.FormatH264.SPS, PPS: test.FormatH264.PPS}}}}
+		if err := vinit.Marshal(&vbuf); err != nil {
+			t.Fatal(err)
+		}
+		base := vbuf.Bytes()
+		at := bytes.Index(base, []byte("mvhd"))
+		if at < 0 || base[at+4] != 0 {
+			t.Fatal("C24: mvhd version 0 box not found in the marshaled init segment")
+		}
+		const mx = 4294967295
+		corners := [][2]uint32{{mx, 1}, {mx, mx}, {mx, 2}, {mx, 3}, {0, 1}, {0, mx}, {1, mx}, {1, 1}, {mx - 1, mx}, {mx, mx - 1},
+			{2147483648, 1}, {2147483647, 1}, {mx, 1000000000}, {1000000000, mx}, {mx, 90000}, {90000, 1}, {1, 1000000000},
+			{1000000001, 1000000000}, {999999999, 1000000000}, {mx, 999999999}, {5, 0}, {0, 0}}
+		u32s := []uint32{0, 1, 2, 3, 999, 1000, 90000, 1000000000, 2147483647, 2147483648, mx - 1, mx}
+		pick := func() uint32 {
+			switch r.Intn(4) {
+			case 0:
+				return vPick(r, u32s)
+			case 1:
+				return uint32(r.U64() %% 200000)
+			case 2:
+				return uint32(r.U64() >> uint(32+r.Intn(32)))
+			default:
+				return uint32(r.U64())
+			}
+		}
+		for i := 0; i < len(corners)+n; i++ {
+			a, c := pick(), pick()
+			if i < len(corners) {
+				a, c = corners[i][0], corners[i][1]
+			}
+			b := append([]byte(nil), base...)
+			binary.BigEndian.PutUint32(b[at+16:], c)
+			binary.BigEndian.PutUint32(b[at+20:], a)
+			_, d, err := segmentFMP4ReadHeader(bytes.NewReader(b))
+			if c == 0 {
+				if err == nil {
+					t.Fatalf("C24: mvhd timescale 0 accepted")
+				}
+				continue // the divisor is checked before the site is reached
+			}
+			if err != nil {
+				t.Fatalf("C24: segmentFMP4ReadHeader(duration=%%d timescale=%%d): %%v", a, c, err)
+			}
+			class := "inline uint32*1e9/uint32"
+			if a == mx || c == mx || c == 1 {
+				class += " (boundary)"
+			}
+			out.Case(cqApp("KInl", "%(coq)s_site", cqZ(int64(a)), "1000000000", cqZ(int64(c)), cqZ(int64(d))),
+				map[string]any{"site": "%(where)s", "a": a, "b": 1000000000, "c": c, "result": int64(d)}, class, a != 0)
+		}
+	}
+''',
+    toplevel="")
+
+RECIPE_RTMP_FROMSTREAM = dict(
+    imports=['"io"', '"net"', '"sync"', '"time"', '"github.com/bluenviron/gortmplib/pkg/amf0"',
+             '"github.com/bluenviron/gortmplib/pkg/message"', '"github.com/bluenviron/gortsplib/v5/pkg/description"',
+             '"github.com/bluenviron/gortsplib/v5/pkg/format"', '"github.com/bluenviron/mediamtx/internal/stream"',
+             '"github.com/bluenviron/mediamtx/internal/test"', '"github.com/bluenviron/mediamtx/internal/unit"'],
+    body='''
+	{ // %(where)s through FromStream: MPEG-1 audio units of several frames are written to a real stream; the messages
+		// FromStream hands to the RTMP connection (a recording gortmplib.Conn) carry timestampToDuration(pts, 90000) of each
+		// frame, from which the tick advance of the site (SampleCount * ClockRate / SampleRate) is recovered exactly.
+		// RTMP only carries MPEG-1 layer 3 (1152 samples); 48000 and 32000 Hz need the second (multitrack) audio track.
+		medias := []*description.Media{
+			{Type: description.MediaTypeAudio, Formats: []format.Format{&format.MPEG1Audio{}}},
+			{Type: description.MediaTypeAudio, Formats: []format.Format{&format.MPEG1Audio{}}},
+		}
+		strm := &stream.Stream{OrigDesc: &description.Session{Medias: medias}, WriteQueueSize: 512, RTPMaxPayloadSize: 1450,
+			Parent: test.NilLogger}
+		if err := strm.Initialize(); err != nil {
+			t.Fatal(err)
+		}
+		defer strm.Close()
+		sub := &stream.SubStream{Stream: strm, UseRTPPackets: false}
+		if err := sub.Initialize(); err != nil {
+			t.Fatal(err)
+		}
+		conn := &vC24Conn{}
+		n1, n2 := net.Pipe()
+		defer n1.Close()
+		defer n2.Close()
+		go io.Copy(io.Discard, n2)
+		rd := &stream.Reader{Parent: test.NilLogger}
+		if err := FromStream(strm.OrigDesc, strm.OutDescCopy(), rd, conn, n1, 10*time.Second, amf0.StrictArray{"mp4a"}); err != nil {
+			t.Fatal(err)
+		}
+		strm.AddReader(rd)
+		defer strm.RemoveReader(rd)
+		conn.reset()
+		ticksOf := func(d time.Duration) (int64, bool) { // the tick count whose conversion is d
+			t0 := int64(d) / 100000 * 9
+			for x := t0 - 20; x <= t0+20; x++ {
+				if timestampToDuration(x, 90000) == d {
+					return x, true
+				}
+			}
+			return 0, false
+		}
+		type combo struct {
+			media int
+			srIdx byte
+			rate  int64
+		}
+		combos := []combo{{0, 0, 44100}, {1, 0, 44100}, {1, 1, 48000}, {1, 2, 32000}}
+		starts := []int64{0, 1, 89999, 90000 * 5, 1 << 31, 1 << 32, 1 << 40, -1, -90000, -(1 << 33)}
+		rounds := 1 + n/30
+		for round := 0; round < rounds; round++ {
+			for _, cb := range combos {
+				for _, p0 := range starts {
+					if round > 0 {
+						p0 = int64(r.U64() >> uint(15+r.Intn(40)))
+						if r.Intn(4) == 0 {
+							p0 = -p0
+						}
+					}
+					frames := 2 + r.Intn(3)
+					var pl unit.PayloadMPEG1Audio
+					for k := 0; k < frames; k++ {
+						pl = append(pl, []byte{0xff, 0xfa, 0x50 | cb.srIdx<<2 | byte(r.Intn(2))<<1, byte(r.Intn(4)) << 6, 0x00})
+					}
+					conn.reset()
+					sub.WriteUnit(medias[cb.media], medias[cb.media].Formats[0], &unit.Unit{PTS: p0, Payload: pl})
+					dts := conn.wait(frames, rd)
+					if len(dts) != frames {
+						t.Fatalf("C24: %%d of %%d MPEG-1 audio messages arrived (rate %%d, track %%d)", len(dts), frames, cb.rate, cb.media)
+					}
+					prev, ok := ticksOf(dts[0])
+					if !ok || prev != p0 {
+						t.Fatalf("C24: first frame of the unit: DTS %%v is not the conversion of PTS %%d", dts[0], p0)
+					}
+					for k := 1; k < frames; k++ {
+						cur, ok := ticksOf(dts[k])
+						if !ok {
+							t.Fatalf("C24: DTS %%v is not the conversion of a tick count", dts[k])
+						}
+						out.Case(cqApp("KInl", "%(coq)s_site", "1152", "90000", cqZ(cb.rate), cqZ(cur-prev)),
+							map[string]any{"site": "%(where)s", "a": 1152, "b": 90000, "c": cb.rate, "result": cur - prev,
+								"unit_pts": p0, "frame": k, "track": cb.media},
+							"inline int64(samples)*int64(clockRate)/int64(sampleRate)", true)
+						prev = cur
+					}
+				}
+			}
+		}
+	}
+''',
+    toplevel='''
+// vC24Conn is a gortmplib.Conn that records what FromStream writes.
+type vC24Conn struct {
+	mu  sync.Mutex
+	dts []time.Duration
+}
+
+func (c *vC24Conn) BytesReceived() uint64 { return 0 }
+func (c *vC24Conn) BytesSent() uint64     { return 0 }
+func (c *vC24Conn) Read() (message.Message, error) {
+	return nil, io.EOF
+}
+
+func (c *vC24Conn) Write(m message.Message) error {
+	c.mu.Lock()
+	defer c.mu.Unlock()
+	switch x := m.(type) {
+	case *message.Audio:
+		c.dts = append(c.dts, x.DTS)
+	case *message.AudioExMultitrack:
+		if w, ok := x.Wrapped.(*message.AudioExCodedFrames); ok {
+			c.dts = append(c.dts, w.DTS)
+		}
+	}
+	return nil
+}
+
+func (c *vC24Conn) reset() {
+	c.mu.Lock()
+	c.dts = nil
+	c.mu.Unlock()
+}
+
+func (c *vC24Conn) wait(n int, rd *stream.Reader) []time.Duration {
+	deadline := time.Now().Add(5 * time.Second)
+	for {
+		c.mu.Lock()
+		got := append([]time.Duration(nil), c.dts...)
+		c.mu.Unlock()
+		if len(got) >= n || time.Now().After(deadline) {
+			return got
+		}
+		select {
+		case <-rd.Error():
+			return got
+		case <-time.After(200 * time.Microsecond):
+		}
+	}
+}
+''')
+
+# enclosing function -> recipe; a site without a recipe is covered by the proof over its translation only
+INLINE_RECIPES = {
+    ("internal/playback", "segmentFMP4ReadHeader"): RECIPE_PLAYBACK_READHEADER,
+    ("internal/protocols/rtmp", "FromStream"): RECIPE_RTMP_FROMSTREAM,
+}
+INLINE_NOT_DRIVEN = {
+    ("internal/recorder", "(*formatFMP4).initialize"):
+        "the value only feeds the local `dt`, which is never read (the MPEG-1 audio sample is written with dts: u.PTS + u.PTS): "
+        "nothing observable depends on it",
+}
+
+# range fact (key of tools/gen/muldiv_inline rangeFacts) -> Go that re-validates it on the real library, emitting KFact
+FACT_MPEG1 = dict(
+    imports=['"github.com/bluenviron/mediacommon/v2/pkg/codecs/mpeg1audio"'],
+    body='''
+	{ // range facts about mpeg1audio.FrameHeader: every 4-byte header prefix 0xff b1 b2 b3 (2^24) that Unmarshal accepts
+		minC, maxC, minR, maxR, accepted := int64(math.MaxInt64), int64(math.MinInt64), int64(math.MaxInt64), int64(math.MinInt64), 0
+		buf := []byte{0xff, 0, 0, 0, 0}
+		for x := 0; x < 1<<24; x++ {
+			buf[1], buf[2], buf[3] = byte(x>>16), byte(x>>8), byte(x)
+			var h mpeg1audio.FrameHeader
+			if h.Unmarshal(buf) != nil {
+				continue
+			}
+			accepted++
+			minC, maxC = min(minC, int64(h.SampleCount())), max(maxC, int64(h.SampleCount()))
+			minR, maxR = min(minR, int64(h.SampleRate)), max(maxR, int64(h.SampleRate))
+		}
+		if accepted == 0 {
+			t.Fatal("C24: no MPEG-1 audio header accepted")
+		}
+%(cases)s
+	}
+''')
+FACTS = {
+    "(github.com/bluenviron/mediacommon/v2/pkg/codecs/mpeg1audio.FrameHeader).SampleCount":
+        ("mpeg1", '\t\tout.Case(cqApp("KFact", "%(lo)s", "%(hi)s", cqZ(minC), cqZ(maxC)), map[string]any{"fact": "FrameHeader.SampleCount()", '
+                  '"assumed": "[%(lo)s, %(hi)s]", "observed_min": minC, "observed_max": maxC, "headers_accepted": accepted}, "range fact", true)'),
+    "github.com/bluenviron/mediacommon/v2/pkg/codecs/mpeg1audio.FrameHeader.SampleRate":
+        ("mpeg1", '\t\tout.Case(cqApp("KFact", "%(lo)s", "%(hi)s", cqZ(minR), cqZ(maxR)), map[string]any{"fact": "FrameHeader.SampleRate", '
+                  '"assumed": "[%(lo)s, %(hi)s]", "observed_min": minR, "observed_max": maxR, "headers_accepted": accepted}, "range fact", true)'),
+    "(*github.com/bluenviron/gortsplib/v5/pkg/format.MPEG1Audio).ClockRate":
+        ("plain", '\t{\n\t\tcr := int64((&format.MPEG1Audio{}).ClockRate())\n\t\tout.Case(cqApp("KFact", "%(lo)s", "%(hi)s", cqZ(cr), cqZ(cr)), '
+                  'map[string]any{"fact": "format.MPEG1Audio.ClockRate()", "assumed": "[%(lo)s, %(hi)s]", "observed": cr}, "range fact", true)\n\t}'),
+}
+FACT_IMPORTS = {"plain": ['"github.com/bluenviron/gortsplib/v5/pkg/format"'], "mpeg1": FACT_MPEG1["imports"]}
+FACTS_PKG = "internal/protocols/rtmp"    # the package whose generated driver validates the facts (already driven, imports both libraries)
+
 LOOP3 = '''
 	for i := 0; i < n; i++ {
 		rate := pickRate(%(max)s)
@@ -150,9 +409,38 @@ class C24(Prop):
             if new != old:
                 with vlib.Lock("coqmake"):
                     open(out, "w").write(new)
+        # inline sites (a * b / c outside the named helpers): second translator, needs go/types (x/tools, offline)
+        out2 = os.path.join(vlib.COQ, "gen", "C24_Inline.v")
+        notes2 = os.path.join(ctx.workdir, "c24_inline.json")
+        tmp2 = os.path.join(ctx.workdir, "C24_Inline.v")
+        rc2, o2 = vlib.sh(["go", "run", ".", vlib.REPO, tmp2, notes2], cwd=os.path.join(vlib.VERIF, "tools", "gen", "muldiv_inline"),
+                          env=vlib.go_env(), timeout=600)
+        inl = json.load(open(notes2)) if os.path.exists(notes2) else {}
+        self.inline_sites = inl.get("sites") or []
+        if os.path.exists(tmp2):
+            new = open(tmp2).read()
+            old = open(out2).read() if os.path.exists(out2) else None
+            if new != old:
+                with vlib.Lock("coqmake"):
+                    open(out2, "w").write(new)
         if rc != 0:
             raise RuntimeError("translator failed: " + o[-2000:])
-        return ["%s:%d %s -> %s (%s)" % (s["File"], s["Line"], s["Name"], s.get("CoqName") or "UNTRANSLATABLE", s["Kind"]) for s in self.sites]
+        if rc2 != 0:
+            raise RuntimeError("inline translator failed: " + o2[-2000:])
+        notes = ["%s:%d %s -> %s (%s)" % (s["File"], s["Line"], s["Name"], s.get("CoqName") or "UNTRANSLATABLE", s["Kind"]) for s in self.sites]
+        for s in self.inline_sites:
+            key = (s["Pkg"], s["Func"])
+            how = "driven through " + s["Func"] if key in INLINE_RECIPES else \
+                "NOT DRIVEN (proof over the translation only): " + INLINE_NOT_DRIVEN.get(key, "no driver recipe for " + s["Func"])
+            notes.append("inline %s:%d %s : %s -> %s [%s]; %s" % (
+                s["File"], s["Line"], s["Expr"], s["ExprType"], s["CoqName"],
+                ", ".join("%s in [%s, %s]%s" % ("abc"[i], o["Lo"], o["Hi"], " (range fact)" if o["Fact"] else "") for i, o in enumerate(s["Ops"])), how))
+        for o in inl.get("ignored") or []:
+            notes.append("a*b/c without a time unit / clock rate / ...Rate / ...TimeScale operand (not a timestamp scaling, left alone): "
+                         "%s:%d %s" % (o["File"], o["Line"], o["Expr"]))
+        for o in inl.get("others") or []:
+            notes.append("single-operation scaling (not of the a*b/c form, not translated): %s:%d %s" % (o["File"], o["Line"], o["Expr"]))
+        return notes
 
     def n_cases(self, tier):
         return self.n_quick if tier == "quick" else self.n_thorough
@@ -166,13 +454,46 @@ class C24(Prop):
             if "rpicamera" in s["Pkg"]:
                 continue   # build-tagged out on this platform
             bypkg.setdefault(s["Pkg"], []).append(s)
+        inl_bypkg = {}
+        facts = {}
+        for s in getattr(self, "inline_sites", []):
+            if (s["Pkg"], s["Func"]) in INLINE_RECIPES and os.path.isdir(os.path.join(vlib.REPO, s["Pkg"])):
+                inl_bypkg.setdefault(s["Pkg"], []).append(s)
+                bypkg.setdefault(s["Pkg"], [])
+            for o in s["Ops"]:
+                if o["Fact"]:
+                    if o["Fact"] not in FACTS:
+                        raise RuntimeError("range fact without a validation recipe: " + o["Fact"])
+                    facts[o["Fact"]] = (o["Lo"], o["Hi"])
+        if facts:
+            bypkg.setdefault(FACTS_PKG, [])
         pkgs = sorted(bypkg)
         ov = vlib.build_overlay(ctx.workdir, pkgs)
         ovj = json.load(open(ov))
         for pkg in pkgs:
             tag = pkg.replace("/", "_")
             uses_time = any("time.Duration" in t for s in bypkg[pkg] for t in s["ParamTypes"])
-            src = DRIVER_HEAD % {"pkg": vlib._pkg_name(pkg), "tag": tag, "imports": '\t"time"\n' if uses_time else ""}
+            imports = set(['"time"'] if uses_time else [])
+            inline_src, toplevel = "", ""
+            for s in inl_bypkg.get(pkg, []):
+                rec = INLINE_RECIPES[(s["Pkg"], s["Func"])]
+                imports.update(rec["imports"])
+                inline_src += rec["body"] % {"coq": s["CoqName"], "where": "%s:%d %s" % (s["File"], s["Line"], s["Expr"])}
+                if rec["toplevel"] not in toplevel:
+                    toplevel += rec["toplevel"]
+            if facts and pkg == FACTS_PKG:
+                mpeg1 = []
+                for k in sorted(facts):
+                    kind, tmpl = FACTS[k]
+                    imports.update(FACT_IMPORTS[kind])
+                    line = tmpl % {"lo": facts[k][0], "hi": facts[k][1]}
+                    if kind == "mpeg1":
+                        mpeg1.append(line)
+                    else:
+                        inline_src += line + "\n"
+                if mpeg1:
+                    inline_src += FACT_MPEG1["body"] % {"cases": "\n".join(mpeg1)}
+            src = DRIVER_HEAD % {"pkg": vlib._pkg_name(pkg), "tag": tag, "imports": "".join("\t%s\n" % i for i in sorted(imports))}
             for s in bypkg[pkg]:
                 where = "%s:%d %s" % (s["File"], s["Line"], s["Name"])
                 mx = "4294967295" if "uint32" in s["ParamTypes"] else "4294967296"
@@ -183,7 +504,7 @@ class C24(Prop):
                     src += "\t{\n" + LOOP2 % {"fn": s["Name"], "t0": s["ParamTypes"][0], "t1": s["ParamTypes"][1], "coq": s.get("CoqName") or "",
                                               "where": where, "kind": s["Kind"], "ctor": "KTo" if s["Kind"] == "to_nanos" else "KFrom",
                                               "max": mx} + "\t}\n"
-            src += "}\n"
+            src += inline_src + "}\n" + toplevel
             f = os.path.join(ctx.workdir, "zz_verif_c24_%s_test.go" % tag)
             open(f, "w").write(src)
             ovj["Replace"][os.path.join(vlib.REPO, pkg, "zz_verif_c24_test.go")] = f
